@@ -539,6 +539,22 @@ func c13exec(j run.Job, a *run.Acc) {
 			if strings.Join(w.log, ";") != strings.Join(wantE, ";") || (eerr != nil) != (evalFail >= 0) || (eerr == nil && v != wantV) {
 				a.Violate("evaluation", "evaluation", desc(map[string]any{"log": w.log, "expected": wantE, "value": fmt.Sprint(v), "error": fmt.Sprint(eerr)}))
 			}
+			// the same tree evaluated AGAIN (a tree is parsed once and evaluated with many contexts; an evaluation that
+			// failed - a variable that was missing - is repeated once the cause is gone): every interpreter runs again on its
+			// node, and this time nothing fails
+			stopE, wantE, evalFail = false, nil, -1
+			pre(root)
+			for i := range wantE {
+				wantE[i] = strings.Replace(wantE[i], "u=UE", "u=UE2", 1)
+			}
+			w.failAt = -1
+			w.log = nil
+			v2, eerr2 := parsley.EvaluateNode("UE2", root.node)
+			a.Count("interpreter invocations observed", int64(len(w.log)))
+			a.Count("second evaluations of an already evaluated tree", 1)
+			if strings.Join(w.log, ";") != strings.Join(wantE, ";") || eerr2 != nil || v2 != wantV {
+				a.Violate("evaluation-repeated", "evaluation-repeated", desc(map[string]any{"log": w.log, "expected": wantE, "value": fmt.Sprint(v2), "error": fmt.Sprint(eerr2), "first_evaluation_failed": eerr != nil}))
+			}
 		}
 
 		// ---- Transform: own transformer where present, else children rebuilt recursively; error aborts
@@ -698,7 +714,7 @@ func init() {
 		Finish: func(tier string, a *run.Acc, cov map[string]any) string {
 			cov["rule"] = "case = a random tree built with ast.NewNonTerminalNode / NewEmptyNonTerminalNode / NewTerminalNode / EmptyNode (arity 0-4 and now and then 10-50, depth <= 6; one tree in 41 a chain 40-340 levels deep, one in 41 with a node of 300-1800 children; optionally an alternative list at the root), " +
 				"interpreters from four capability classes (plain, +StaticChecker, +NodeTransformer, both) plus the library's own interpreter.Select; checkers that return a nil schema; transformers that return the node itself, a leaf or a fresh transformable non-terminal; instrumented callbacks log (kind, node id, what they saw). Oracle = the same traversals over the generator's mirror tree: " +
-				"Walk post-order with a stop at a random visit; StaticCheck bottom-up with children's schemas, stored schemas and an injected failure; evaluation order with identical node + user context and an injected failure; " +
+				"Walk post-order with a stop at a random visit; StaticCheck bottom-up with children's schemas, stored schemas and an injected failure; evaluation order with identical node + user context and an injected failure, then a second evaluation of the same tree with another context and without the failure; " +
 				"Transform (own transformer, else children, injected failure), directly and through parsley.Parse with EnableTransformation; a quarter of the trees also through Parse with transformation AND static check enabled, compared with Transform followed by StaticCheck on an identical twin. non-trivial = tree with >= 3 nodes; distinct = distinct tree shape"
 			if a.Counters["walk callbacks observed"] == 0 || a.Counters["checker invocations observed"] == 0 || a.Counters["transformer invocations observed"] == 0 {
 				return "some pass was never observed"
